@@ -5,6 +5,7 @@ import (
 	"fmt"
 	"io"
 	"net"
+	"runtime"
 	"sync"
 	"sync/atomic"
 	"time"
@@ -435,6 +436,28 @@ func writeMessage(ctx context.Context, c *websocket.Conn, typ websocket.MessageT
 			}
 		}
 		return ""
+	}
+	// while the call is in progress the caller's slice is the caller's too (it may be sending the same bytes
+	// on another connection): for larger payloads a watcher keeps comparing it with the original
+	if len(payload) >= 4096 && len(payload)%2 == 0 {
+		var stop atomic.Bool
+		seen := make(chan string, 1)
+		go func() {
+			res := ""
+			for !stop.Load() {
+				if i := firstDiff(buf, payload); i >= 0 && res == "" {
+					res = fmt.Sprintf("caller buffer held different bytes at offset %d of %d WHILE the write was in progress", i, len(payload))
+				}
+				runtime.Gosched()
+			}
+			seen <- res
+		}()
+		defer func() {
+			stop.Store(true)
+			if during := <-seen; during != "" && modified == "" {
+				modified = during
+			}
+		}()
 	}
 	if !useWriter {
 		err = c.Write(ctx, typ, buf)
